@@ -68,7 +68,7 @@ def new(shape, fill):
 
 def fresh(name, shape, sort="int"):
     """Array of distinct fresh symbols name_i_j_..."""
-    mk = {"int": z3.Int, "real": z3.Real, "bool": z3.Bool}[sort]
+    mk = {"int": z3.Int, "real": z3.Real, "bool": z3.Bool, "uint8": lambda n: z3.BitVec(n, 8)}[sort]
     return new(tuple(shape), lambda idx: mk(name + "".join(f"_{i}" for i in idx)))
 
 
